@@ -260,6 +260,7 @@ func (r *ObRun) discharge(timeout time.Duration, workers int) {
 
 var selfCheckSamples = 6
 var searchSamples = 400
+var structuredSamples = 4000
 var runSeed int64
 
 func dischargeOne(ob *Oblig, mode string, solvers []string, timeout time.Duration, asserted map[*Term]bool, cancel <-chan struct{}) {
@@ -378,6 +379,20 @@ func dischargeOne(ob *Oblig, mode string, solvers []string, timeout time.Duratio
 	default:
 		ob.Verdict = "inconclusive"
 		ob.Note = "solver: " + res.Status + " " + res.Err
+		if mode == "int" && ob.Kind != "reach" {
+			// the integer encoding was not decided: the bit-vector encoding of the same obligation may still
+			// produce a model (only sat is taken from it)
+			bt := timeout
+			if bt > 30*time.Second {
+				bt = 30 * time.Second
+			}
+			if r2 := SolveC(SMTScript(roots), termVars(roots...), bt, solvers, cancel); r2.Status == "sat" && r2.Model != nil {
+				ob.Verdict = "refuted"
+				ob.Solver = r2.Solver + "(bit-vector encoding after int-mode " + res.Status + ")"
+				ob.Model = r2.Model
+				return
+			}
+		}
 		refuteBySearch(ob)
 	}
 }
@@ -391,6 +406,12 @@ func refuteBySearch(ob *Oblig) {
 	if m := concreteSearch(ob, searchSamples, runSeed); m != nil {
 		ob.Verdict = "refuted"
 		ob.Solver = "concrete-search(after " + ob.Note + ")"
+		ob.Model = m
+		return
+	}
+	if m := structuredSearch(ob, structuredSamples, 40*time.Second, runSeed); m != nil {
+		ob.Verdict = "refuted"
+		ob.Solver = "structured-search(after " + ob.Note + ")"
 		ob.Model = m
 	}
 }
@@ -433,6 +454,20 @@ func (r *ObRun) refuteWithoutContracts() {
 			r.Obs = append(r.Obs, ob)
 			return
 		}
+	}
+	var cand []*Oblig
+	for _, ob := range r2.Obs {
+		if ob.Kind != "reach" && ob.Kind != "leak" && ob.Kind != "lock" {
+			cand = append(cand, ob)
+		}
+	}
+	if ob, m := structuredSearchMulti(cand, structuredSamples, 60*time.Second, runSeed); ob != nil {
+		ob.Verdict = "refuted"
+		ob.Solver = "structured-search(contracts off)"
+		ob.Model = m
+		ob.Concrete = true
+		ob.Mode = r.attr("mode", "bv")
+		r.Obs = append(r.Obs, ob)
 	}
 }
 
